@@ -54,6 +54,11 @@ func backupCmd(out *cq.Out, seed uint64, tier string) {
 			switch r := rng.Intn(10); {
 			case r < 4 || (st == 0 && t%2 == 1):
 				k := 1 + rng.Intn(4)
+				if st == 0 && t == 1 {
+					// a log beyond a thousand events: a node started on the restored store rebuilds its hyper cache from more
+					// recovery tiles than one read of the store's scan buffer holds
+					k = 1150 + rng.Intn(200)
+				}
 				var evs [][]byte
 				for j := 0; j < k; j++ {
 					evs = append(evs, []byte(fmt.Sprintf("b%d-%d", t, ev)))
